@@ -217,3 +217,41 @@ CHECKS["C20"] = dict(
     assumptions=INO_ASSUME,
     deadline=dict(quick=150, thorough=900),
 )
+
+MT_ASSUME = [
+    "threads are real pthreads serialised by a cooperative scheduler; scheduling points: mutex/spin lock, read/write on eventfds and pipes, "
+    "epoll_ctl on another thread's epoll set, kernel waits, thread create/join/finish; interleaving is explored at that granularity under "
+    "sequential consistency (C14's race detection justifies the granularity)",
+    "virtual time advances only when no thread is enabled (discrete-event rule)",
+    "bound = preemptions (switching away from a thread that could continue) + non-default program actions",
+]
+CHECKS["C08"] = dict(
+    quick=[R("h_event_mt", "bound=2 transports=0-3 hacts=1", sched=True)],
+    thorough=[R("h_event_mt", "bound=3 transports=0-4 hacts=2", sched=True)],
+    rule="4-5 wake-up transports (epoll one-shot kick under epoll-timerfd and epoll; raw event over eventfd and over a pipe under ppoll/poll) x "
+         "6 programs for poster 1 x 4 for poster 2 (posts to E0/E1 in sequences of 1-2, feeding the owner's descriptor before/after a post) "
+         "x owner handler actions (post other, post self, register+post E2, unregister E2) x every schedule within the bound",
+    explanation="obligation oracle: every post (start recorded) must be followed by a handler start of that event in the owner thread, checked "
+                "when the owner blocks for good (lost wake-ups surface exactly there) and at exit; handler count never exceeds post count; "
+                "posters end with a 'done' post on which the owner joins them before anything is unregistered",
+    assumptions=MT_ASSUME,
+    deadline=dict(quick=150, thorough=900),
+)
+
+C14_ASSUME = MT_ASSUME + [
+    "ThreadSanitizer (clang 14) is the per-schedule oracle: a vector-clock happens-before detector over the library objects only (harness, "
+    "environment and scheduler are not instrumented; hand-offs use raw futexes and create no happens-before edges)",
+    "suppressed by name: inited, epoll_support, epoll_pwait2_support, eventfd_in_use, pipe2_support, splice_available, iv_event_use_event_raw, "
+    "clock_source, method (the one-way flags the property allows)",
+    "sequentially consistent data-race freedom at C level; weak hardware orderings are not explored",
+]
+CHECKS["C14"] = dict(
+    quick=[R("h_event_mt", "bound=1 transports=0-3 hacts=1 abn_ignore=0", variant="tsan", sched=True)],
+    thorough=[R("h_event_mt", "bound=2 transports=0-4 hacts=1", variant="tsan", sched=True)],
+    rule="the multi-threaded scenario programs of C08-C13 under every schedule within the preemption bound, library built with "
+         "-fsanitize=thread; an execution is one schedule; distinct = distinct observation traces",
+    explanation="exhaustive schedule enumeration supplies the schedules in which conflicting accesses actually execute; on each one the "
+                "happens-before race detector decides, so one explored schedule covers its whole happens-before equivalence class",
+    assumptions=C14_ASSUME,
+    deadline=dict(quick=200, thorough=1200),
+)
